@@ -71,6 +71,14 @@ def run(contract_modules, names=None, procs=None, opts=None):
         info = ex.index.find_function(c.target) if c.target else None
         for case in ex.cases(c, info):
             jobs.append((tuple(contract_modules), cname, case, opts))
+    # scheduling hint only: measured costs of earlier runs, longest first (no long tail in the pool)
+    try:
+        import json as _json
+        from .engine import _case_str
+        _costs = _json.load(open(os.path.join(os.path.dirname(os.path.dirname(os.path.abspath(__file__))), 'costs.json')))
+        jobs.sort(key=lambda j: -_costs.get(f'{j[1]}[{_case_str(j[2])}]', 5.0))
+    except Exception:
+        pass
     procs = procs or min(16, max(1, len(jobs)))
     if procs == 1 or len(jobs) == 1:
         return [_job(j) for j in jobs], ex
